@@ -23,8 +23,10 @@ func C19_sessions() {
 		vAssume(c < 0x80)
 	}
 	key := [4]byte{vU8("k0"), vU8("k1"), vU8("k2"), vU8("k3")}
+	vSessProblems = 0
 	wantS := vServerSession(tok, payload, key)
 	wantC := vClientSession(payload)
+	vAssert(vSessProblems == 0, "sessions.every_step_as_when_running_alone")
 	// oracle for the sequential run
 	late := append(append(append([]byte{}, tok...), tok...), "permessage-deflate="...)
 	vAssert(vAnd(len(wantS) > len(late), vEqBytes(wantS[len(wantS)-len(late):], late)), "sessions.server_handshake_results_observed_late")
@@ -37,6 +39,9 @@ func C19_sessions() {
 	// a second session through the same shared dialer observes exactly the same
 	again := vClientSession(payload)
 	vAssert(vEqBytes(again, wantC), "sessions.repeated_session_same_observation")
+	againS := vServerSession(tok, payload, key)
+	vAssert(vEqBytes(againS, wantS), "sessions.repeated_server_session_same_observation")
+	vAssert(vSessProblems == 0, "sessions.every_step_as_when_running_alone")
 	if vSymbolic() {
 		return
 	}
